@@ -258,6 +258,8 @@ def r033_switch(cg, rep):
 
 # ------------------------------------------------------------------ parser side ---
 CTX_GLOBALS = ('brk_label', 'cont_label', 'current_switch')
+# parser entry points stmt() hands a part of a statement to that is NOT a sub-statement of it
+SUB_PARSERS = ('expr', 'const_expr', 'declspec', 'declaration', 'expr_stmt', 'compound_stmt', 'asm_stmt', 'assign', 'conditional', 'typename')
 
 
 def explore_stmt(P):
@@ -274,10 +276,23 @@ def explore_stmt(P):
         tm_box[0].advance(it, ctx, args[0], 'stmt')
         return Obj('Node', lazy=True, label=ctx.fresh('substmt'))
     sw0 = Obj('Node', lazy=True, label='sw0')
+
+    def h_sub(name):
+        # a sub-construct that is not a sub-statement (controlling expression, for-init, case value, ...):
+        # record the break/continue/switch context it is parsed in, then behave like the opaque, cursor-advancing call
+        def h(it, ctx, n, args):
+            ctx.emit('sub', name, {k: it.read_global(k) for k in CTX_GLOBALS}, n.line)
+            return tm_box[0]._advancing(name)(it, ctx, n, args)
+        return h
+    cuts = {'stmt': h_stmt}
+    for name in SUB_PARSERS:
+        ps = pu.params(name) if name in pu.functions else None
+        if ps and (ps[0].type or '').replace(' ', '') == 'Token**':
+            cuts[name] = h_sub(name)
     tm = TokenModel(P, pu, ['stmt'],
                     extra_opaque=['expr', 'const_expr', 'declspec', 'declaration', 'expr_stmt', 'compound_stmt', 'new_unique_name', 'enter_scope', 'leave_scope',
                                   'is_typename', 'add_type', 'new_cast', 'asm_stmt', 'strndup', 'new_unary', 'copy_type'],
-                    cut={'stmt': h_stmt},
+                    cut=cuts,
                     globals_={'brk_label': Sym('brk0', 'char *'), 'cont_label': Sym('cont0', 'char *'),
                               'current_switch': lambda ctx: View(__import__('sa.interp', fromlist=['Cell']).Cell([0, Obj('Node', lazy=True, label='sw0')], 'current_switch')),
                               'gotos': 0, 'labels': 0})
@@ -287,7 +302,8 @@ def explore_stmt(P):
 
     def mk(ctx):
         box = {'rest': None}
-        return [_Ref(VarPlace(box, 'rest')), tm.token('tok')]
+        ctx.tok0 = tm.token('tok')
+        return [_Ref(VarPlace(box, 'rest')), ctx.tok0]
     res = it.explore('stmt', mk, max_paths=4000)
     return pu, tm, it, res
 
@@ -301,6 +317,10 @@ def first_keyword(it, ctx):
 def r031(P, rep):
     rep.rule('R03.1', 'parsing any statement leaves break/continue/switch context as it found it; loop bodies are parsed with the loop\'s own fresh labels, switch bodies with the switch\'s break label and the enclosing continue label; block scopes are entered and left in pairs', floor=12)
     rep.rule('R03.2', 'case/default are registered on the innermost switch after a null check, and the folded case value reaches the node unnarrowed', floor=4)
+    rep.rule('R03.7', 'only the body of a loop/switch is parsed with that construct\'s own break/continue/switch context: every other part of a statement (controlling expression, '
+                      'for-init/increment, case value, returned expression) is handed to its parser with the context of the enclosing construct, because a break/continue/case '
+                      'written there (GNU statement expression) is not in the body (C11 6.8.6.2/6.8.6.3, 6.8.4.2); and a for statement\'s scope is open while its header is parsed', floor=30)
+    from ..lib_parse import spelled, OTHER
     pu, tm, it, res = explore_stmt(P)
     where = 'parse.c:%d' % pu.fn('stmt').line
     kinds_seen = set()
@@ -360,6 +380,39 @@ def r031(P, rep):
             elif kind in ('ND_IF', 'ND_LABEL', 'ND_CASE'):
                 okb = isinstance(g['brk_label'], Sym) and g['brk_label'].name == 'brk0' and isinstance(g['cont_label'], Sym) and g['cont_label'].name == 'cont0'
                 rep.ob('R03.1', 'parse.c:stmt:%s:body-context-unchanged' % arm, okb, 'a sub-statement of %s is parsed with changed break/continue labels' % arm, where=where)
+        # (b') everything that is not a sub-statement is parsed in the enclosing context
+        sp = spelled(it, getattr(ctx, 'tok0', None)) or []
+        kwd = ('block' if sp[0] == '{' else sp[0]) if len(sp) == 1 and sp[0] != OTHER else ('other' if kind is None else 'other-' + arm)
+        subs = [e for e in ctx.events if e[0] == 'sub']
+        for gname in CTX_GLOBALS:
+            bad = []
+            for e in subs:
+                v = e[2][gname]
+                v = it.settle(v) if isinstance(v, View) else v
+                if gname == 'current_switch':
+                    okh = v is None or isinstance(v, View) or (isinstance(v, Obj) and v.label == 'sw0') or (isinstance(v, int) and v == 0)
+                else:
+                    okh = isinstance(v, Sym) and v.name == init[gname]
+                if not okh:
+                    bad.append((e[1], e[3], v))
+            if subs:
+                rep.ob('R03.7', 'parse.c:stmt:%s:non-body-parts-parsed-with-enclosing-%s' % (kwd, gname), not bad,
+                       'in a `%s` statement the part(s) parsed by %s are parsed with %s = %r, the construct\'s own value instead of the enclosing one: those parts are not in the body, '
+                       'so a break/continue/case label inside them (statement expression) belongs to the enclosing loop/switch but is bound to this statement'
+                       % (kwd, ', '.join('%s() [parse.c:%d]' % (b[0], b[1]) for b in bad), gname, bad[0][2] if bad else None),
+                       where='parse.c:%d' % (bad[0][1] if bad else subs[0][3]), facts={'path': ctx.trail[-6:]})
+        evs = [('scope', e[1]) if e[0] == 'call' else (e[0], e[1] if e[0] == 'sub' else 'stmt') for e in ctx.events
+               if e[0] in ('sub', 'body') or (e[0] == 'call' and e[1] in ('enter_scope', 'leave_scope'))]
+        if ('scope', 'enter_scope') in evs and ('scope', 'leave_scope') in evs:
+            first = evs.index(('scope', 'enter_scope'))
+            last = len(evs) - 1 - evs[::-1].index(('scope', 'leave_scope'))
+            for i, e in enumerate(evs):
+                if e[0] == 'scope':
+                    continue
+                rep.ob('R03.7', 'parse.c:stmt:%s:scope-open-while-%s-parsed' % (kwd, e[1]), first < i < last,
+                       'the `%s` statement opens a block scope, but the part parsed by %s() is parsed %s: declarations of the for-init would %s (C11 6.8.5p5, 6.2.1p4)'
+                       % (kwd, e[1], 'before the scope is entered' if i < first else 'after the scope is left', 'land in the enclosing scope and stay visible after the loop' if i < first else 'no longer be visible there'),
+                       where=where, facts={'order': [x[1] for x in evs]})
         # (c) scopes paired
         depth = 0
         oks = True
@@ -512,6 +565,194 @@ def r035(P, rep):
         rep.undecided('R03.5', 'parse.c:struct_union_decl', 'no path reaches struct_members')
 
 
+# ------------------------------------------------- point of declaration (C11 6.2.1p7) ---
+DECL_PARSERS = ('declarator', 'gvar_initializer', 'lvar_initializer', 'initializer', 'compound_stmt', 'const_expr', 'expr', 'assign', 'conditional',
+                'declspec', 'typename', 'stmt', 'declaration', 'struct_members', 'enum_specifier')
+DECL_OPAQUE = ('hashmap_put', 'hashmap_put2', 'strndup', 'compute_vla_size', 'new_unary', 'new_binary', 'new_vla_ptr', 'new_alloca', 'new_var_node', 'new_node',
+               'new_unique_name', 'find_func', 'find_tag', 'push_tag_scope', 'enum_type', 'resolve_goto_labels', 'pointer_to', 'array_of', 'strlen',
+               'enter_scope', 'leave_scope', 'is_typename', 'is_function', 'add_type', 'parse_typedef', 'function', 'global_variable', 'format', 'new_num')
+
+
+def _vlabel(it, v):
+    if isinstance(v, View):
+        w = it.settle(v)
+        if isinstance(w, Obj):
+            return w.label
+        return v.cell.label
+    if isinstance(v, Obj):
+        return v.label
+    if isinstance(v, Sym):
+        return v.name
+    return None
+
+
+def decl_events(P, pu, fname, mk_rest, loop_limit=2, max_paths=6000):
+    """explore one declaring function of parse.c; per path the ordered list of
+       ('declarator', label-of-result) | ('insert', 'name', token-label | None, key) -- a name enters a `vars` table; token-label = the identifier token it was spelled from
+       ('parse', callee, start-token label) | ('scope', 'enter_scope'|'leave_scope') | ('call', name, result)"""
+    from ..lib_parse import TokenModel
+    from ..interp import _Ref, VarPlace
+    if fname not in pu.functions:
+        raise AnalysisBroken('parse.c: %s vanished' % fname)
+    opq = [f for f in DECL_PARSERS + DECL_OPAQUE if f != fname]
+    tm = TokenModel(P, pu, [fname, 'consume_end'], extra_opaque=opq, globals_={'scope': lambda ctx: Obj('Scope', lazy=True, label='scope')}, loop_limit=loop_limit)
+    it = tm.interp()
+    parsers = set(f for f in opq if f in pu.functions and pu.params(f) and (pu.params(f)[0].type or '').replace(' ', '') == 'Token**')
+
+    def mk(ctx):
+        return mk_rest(tm, ctx, _Ref(VarPlace({'rest': None}, 'rest')))
+    out = []
+    for ctx, o in it.explore(fname, mk, max_paths=max_paths):
+        it.ctx = ctx
+        evs = []
+        spelled_from = {}       # id/name of a strndup result -> token label
+        for e in ctx.events:
+            if e[0] != 'call':
+                continue
+            name, args, res = e[1], e[2], e[4]
+            if name == 'strndup':
+                a = args[0] if args else None
+                lab = a.name if isinstance(a, Sym) else None
+                if lab and lab.endswith('.loc') and isinstance(res, Sym):
+                    spelled_from[res.name] = lab[:-len('.loc')]
+            elif name in ('hashmap_put', 'hashmap_put2'):
+                m = getattr(args[0], 'label', None) if args else None
+                if m and m.endswith('.vars'):
+                    k = args[1]
+                    evs.append(('insert', 'name', spelled_from.get(k.name) if isinstance(k, Sym) else None, k, e[3]))
+            elif name == 'declarator':
+                evs.append(('declarator', _vlabel(it, res), e[3]))
+            elif name in ('enter_scope', 'leave_scope'):
+                evs.append(('scope', name, e[3]))
+            elif name in parsers:
+                evs.append(('parse', name, _vlabel(it, args[1]) if len(args) > 1 else None, e[3]))
+            elif name in ('find_func', 'parse_typedef', 'function', 'global_variable'):
+                evs.append(('call', name, res, e[3]))
+        out.append((ctx, o, evs))
+    return it, out
+
+
+def r038(P, rep):
+    rep.rule('R03.8', 'an identifier enters its scope at the point C11 6.2.1p7 prescribes: an enumerator only after its own enumerator definition (its `= constant-expression` is parsed '
+                      'while an outer declaration of the same name is still the visible one); any other identifier right after its declarator, so that its initializer, the following '
+                      'declarators and a function\'s own body are parsed with it in scope; parameters and the body live inside the function\'s scope, a block\'s items inside the block\'s scope', floor=14)
+    pu = P.unit('parse.c')
+    # --- (a) enumerators ----------------------------------------------------------------
+    it, paths = decl_events(P, pu, 'enum_specifier', lambda tm, ctx, rest: [rest, tm.token('tok')])
+    where = 'parse.c:%d' % pu.fn('enum_specifier').line
+    n_own = n_ins = 0
+    for ctx, o, evs in paths:
+        if o[0] != 'ret':
+            continue
+        inserted = [e for e in evs if e[0] == 'insert']
+        for e in inserted:
+            n_ins += 1
+            if e[2] is None:
+                rep.undecided('R03.8', 'parse.c:enum_specifier:enumerator-name', 'a name entered into the scope is not spelled from an identifier token (strndup of tok->loc): the enumerator it declares cannot be identified', where=where)
+        idents = [e[2] for e in inserted if e[2]]
+        for i, e in enumerate(evs):
+            if e[0] != 'parse' or e[1] == 'declarator' or not e[2]:
+                continue
+            # the enumerator this constant expression belongs to: the identifier token closest before its first token
+            owners = [t for t in idents if e[2] == t or e[2].startswith(t + '.next')]
+            if not owners:
+                continue
+            own = max(owners, key=len)
+            pos = [j for j, x in enumerate(evs) if x[0] == 'insert' and x[2] == own]
+            n_own += 1
+            rep.ob('R03.8', 'parse.c:enum_specifier:enumerator-in-scope-only-after-its-%s' % e[1], bool(pos) and min(pos) > i,
+                   'an enumerator is entered into the scope before the %s() call that parses its own `= constant-expression`: the enumerator\'s scope begins just after its enumerator definition '
+                   '(C11 6.2.1p7), so in `enum { A = A * 10 }` the A of the expression must still be the outer A; here it finds the half-built inner entry' % e[1],
+                   where='parse.c:%d' % e[3], facts={'order': [(x[0], x[1], x[2]) for x in evs]})
+    if n_ins == 0 or n_own == 0:
+        rep.undecided('R03.8', 'parse.c:enum_specifier:enumerators', 'no returning path enters an enumerator with a constant expression into the scope', where=where)
+
+    # --- (b) declarator-introduced identifiers ----------------------------------------------
+    from ..interp import Cell
+
+    def attr_cell():
+        return View(Cell([0, Obj('VarAttr', lazy=True, label='attr')], 'attr'))
+    specs = (('declaration', lambda tm, ctx, rest: [rest, tm.token('tok'), Obj('Type', lazy=True, label='basety'), attr_cell()]),
+             ('global_variable', lambda tm, ctx, rest: [tm.token('tok'), Obj('Type', lazy=True, label='basety'), Obj('VarAttr', lazy=True, label='attr')]),
+             ('parse_typedef', lambda tm, ctx, rest: [tm.token('tok'), Obj('Type', lazy=True, label='basety')]))
+    for fname, mk in specs:
+        it, paths = decl_events(P, pu, fname, mk)
+        where = 'parse.c:%d' % pu.fn(fname).line
+        n_d = 0
+        for ctx, o, evs in paths:
+            cur = None      # (label of the current declarator's result, index)
+            for i, e in enumerate(evs + ([('end',)] if o[0] == 'ret' else [])):
+                if e[0] in ('declarator', 'end'):
+                    if cur is not None:
+                        n_d += 1
+                        ins = [x for x in evs[cur[1]:i] if x[0] == 'insert' and x[2] == cur[0] + '.name']
+                        rep.ob('R03.8', 'parse.c:%s:identifier-declared-before-%s' % (fname, 'next-declarator' if e[0] == 'declarator' else 'end-of-declaration'), len(ins) >= 1,
+                               '%s() finishes a declarator without entering the declared identifier into the scope before %s (C11 6.2.1p7: the scope begins just after the completion of the declarator)'
+                               % (fname, 'the next declarator of the list is parsed' if e[0] == 'declarator' else 'it returns'), where='parse.c:%d' % evs[cur[1]][2], facts={'order': [(x[0], x[1], x[2]) for x in evs]})
+                    cur = (e[1], i) if e[0] == 'declarator' else None
+                    if cur and not cur[0]:
+                        rep.undecided('R03.8', 'parse.c:%s:declarator-result' % fname, 'the result of declarator() is not an identifiable object', where=where); cur = None
+                elif e[0] == 'parse' and cur is not None:
+                    ins = [x for x in evs[cur[1]:i] if x[0] == 'insert' and x[2] == cur[0] + '.name']
+                    rep.ob('R03.8', 'parse.c:%s:%s-parsed-with-declared-identifier-in-scope' % (fname, e[1]), len(ins) >= 1,
+                           'in %s() the tokens after a declarator are parsed by %s() before the declared identifier is entered into the scope: its scope begins just after the completion of its '
+                           'declarator (C11 6.2.1p7), so the initializer of `static void *p = &p;` / `int x = sizeof x;` must see the new declaration, not an outer one (or none)' % (fname, e[1]),
+                           where='parse.c:%d' % e[3], facts={'order': [(x[0], x[1], x[2]) for x in evs]})
+        if n_d == 0:
+            rep.undecided('R03.8', 'parse.c:%s:declarators' % fname, 'no path completes a declarator', where=where)
+
+    # --- (c) function definitions -------------------------------------------------------------
+    it, paths = decl_events(P, pu, 'function', lambda tm, ctx, rest: [tm.token('tok'), Obj('Type', lazy=True, label='basety'), Obj('VarAttr', lazy=True, label='attr')], loop_limit=1)
+    where = 'parse.c:%d' % pu.fn('function').line
+    n_body = 0
+    for ctx, o, evs in paths:
+        bodies = [i for i, e in enumerate(evs) if e[0] == 'parse' and e[1] != 'declarator']
+        if not bodies:
+            continue
+        b = bodies[0]
+        n_body += 1
+        d = [e for e in evs[:b] if e[0] == 'declarator']
+        dl = d[-1][1] if d else None
+        enters = [i for i, e in enumerate(evs) if e[0] == 'scope' and e[1] == 'enter_scope']
+        leaves = [i for i, e in enumerate(evs) if e[0] == 'scope' and e[1] == 'leave_scope']
+        it.ctx = ctx
+        known = False
+        for e in evs[:b]:
+            if e[0] == 'call' and e[1] == 'find_func':
+                r = it.settle(e[2]) if isinstance(e[2], View) else e[2]
+                known = known or isinstance(r, Obj) or (isinstance(r, Sym) and 0 in ctx.neq.get(r.key(), ()))
+        own = [i for i, e in enumerate(evs[:b]) if e[0] == 'insert' and dl and e[2] == dl + '.name']
+        rep.ob('R03.8', 'parse.c:function:own-name-in-file-scope-before-body', known or (bool(own) and (not enters or own[0] < enters[0])),
+               'a function definition parses its body %s: the function\'s identifier is in scope from the end of its declarator (C11 6.2.1p7) — a recursive call would not find it, or it would be declared inside its own block scope'
+               % ('before its name is entered into the scope' if not own else 'with its name entered into the function\'s own block scope instead of the enclosing one'), where=where, facts={'order': [(x[0], x[1], x[2]) for x in evs]})
+        params = [i for i, e in enumerate(evs) if e[0] == 'insert' and dl and e[2] and e[2].startswith(dl + '.params')]
+        inner = [i for i, e in enumerate(evs) if e[0] == 'insert' and i not in own]
+        okp = len(enters) == 1 and all(enters[0] < i < b for i in params) and (o[0] != 'ret' or (len(leaves) == 1 and leaves[0] > b)) and all(enters[0] < i for i in inner) and enters[0] < b
+        rep.ob('R03.8', 'parse.c:function:parameters-and-body-inside-function-scope', okp,
+               'a function definition does not enter one scope, then its parameters (and __func__), then parse the body, then leave the scope: %r — parameters would leak into / be missing from the scope the body is parsed in (C11 6.2.1p4)'
+               % [(x[0], x[1]) for x in evs], where=where)
+    if n_body == 0:
+        rep.undecided('R03.8', 'parse.c:function:body', 'no path of function() parses a body', where=where)
+
+    # --- (d) block items are parsed inside the block's scope -----------------------------------------
+    it, paths = decl_events(P, pu, 'compound_stmt', lambda tm, ctx, rest: [rest, tm.token('tok')], loop_limit=1)
+    where = 'parse.c:%d' % pu.fn('compound_stmt').line
+    n_items = 0
+    for ctx, o, evs in paths:
+        if o[0] != 'ret':
+            continue
+        enters = [i for i, e in enumerate(evs) if e[0] == 'scope' and e[1] == 'enter_scope']
+        leaves = [i for i, e in enumerate(evs) if e[0] == 'scope' and e[1] == 'leave_scope']
+        rep.ob('R03.8', 'parse.c:compound_stmt:scope-paired', len(enters) == 1 and len(leaves) == 1 and enters[0] < leaves[0], 'a block does not enter exactly one scope and leave it again on a path: %r' % [(x[0], x[1]) for x in evs], where=where)
+        for i, e in enumerate(evs):
+            if e[0] in ('parse', 'call') and e[1] != 'find_func':
+                n_items += 1
+                rep.ob('R03.8', 'parse.c:compound_stmt:%s-inside-block-scope' % e[1], bool(enters) and bool(leaves) and enters[0] < i < leaves[-1],
+                       'a block item handled by %s() is parsed outside the block\'s scope (before enter_scope / after leave_scope): its declarations land in, or its uses are resolved in, the enclosing scope (C11 6.2.1p4)' % e[1], where='parse.c:%d' % e[3])
+    if n_items == 0:
+        rep.undecided('R03.8', 'parse.c:compound_stmt:items', 'no returning path parses a block item', where=where)
+
+
 def r036(P, rep):
     rep.rule('R03.6', 'labels are resolved per function: every goto gets the unique label of the label with the same name, an unmatched goto is diagnosed, and both lists are cleared afterwards; fresh label names never repeat', floor=4)
     pu = P.unit('parse.c')
@@ -574,4 +815,5 @@ def run(P, rep, tier):
     r033_switch(cg, rep)
     r031(P, rep)
     r035(P, rep)
+    r038(P, rep)
     r036(P, rep)
